@@ -20,7 +20,7 @@ RULE = ("case = history (list of calls) over the universe {e(a), e'(a), e(b), fi
         "random depth-30 histories; non-trivial = the history reaches a state with a duplicate wrapper or contains a raising call; "
         "distinct = distinct history")
 ASSUMPTIONS = ["block keys are not mutated while held", "K1 (add(..., fail_on_duplicate_key=True) raises after inserting) is a listed known finding"]
-MIN = {"library_invariant": (200000, 2000000), "model_step": (100000, 1000000), "atomicity_on_ValueError": (20000, 200000)}
+MIN = {"library_invariant": (200000, 2000000), "model_step": (100000, 1000000), "atomicity_on_ValueError": (20000, 200000), "big_library_history": (500, 20000)}
 
 NAMES = ["ea", "eac", "e2a", "exa", "eb", "e0c", "e2c", "sa", "s2a", "sxa", "sb", "p", "c", "cc"]
 REPLACE_PAIRS = [("ea", "e2a"), ("ea", "eb"), ("eb", "e2a"), ("sa", "s2a"), ("sa", "ea"), ("e2a", "ea"), ("p", "c"), ("c", "eb"), ("eb", "sa"), ("sa", "sb"), ("sb", "s2a"), ("eb", "e2c"), ("p", "e0c"), ("eb", "exa"), ("sb", "sxa"), ("eac", "eb"), ("eb", "eac"), ("cc", "eb"), ("cc", "e2a"), ("c", "cc"), ("p", "cc")]
@@ -58,6 +58,10 @@ def cases(tier, seed, shard, nshards):
     r = rng_for(seed, shard, "c08")
     for _ in range(tier_pick(tier, 16000, 600000) // nshards):
         yield {"h": [r.choice(OPS) for _ in range(30)]}
+    # the same histories in a library that already holds many blocks (seed C08-m: an id -> position map used from 64 blocks on)
+    for j in range(tier_pick(tier, 1600, 60000) // nshards):
+        n = r.choice([15, 16, 17, 63, 64, 65, 65, 70, 127, 128, 129]) if j % 20 else r.choice([255, 256, 257, 300])
+        yield {"fill": n, "at": r.choice([0, 0, 3, 10]), "h": [r.choice(OPS) for _ in range(r.choice([6, 12, 30]))]}
 
 
 _SUB = []
@@ -193,6 +197,13 @@ def check(case, ctx):
     from bibtexparser.library import Library
     contracts.install_library_invariant()
     U = universe()
+    if case.get("fill"):
+        from bibtexparser import model as M
+        for i in range(case["fill"]):
+            U["f%d" % i] = M.ImplicitComment("filler %d" % i, start_line=100 + i, raw="filler %d" % i)
+        at = min(case.get("at", 0), len(case["h"]))
+        case = dict(case, h=case["h"][:at] + [["add", "f%d" % i] for i in range(case["fill"])] + case["h"][at:])
+        ctx.mon("big_library_history")
     out = []
     c0 = contracts.COUNT["library_invariant"]
     lib = Library()
